@@ -1,6 +1,8 @@
 import Srctools.Proofs.C14
 import Srctools.Proofs.C14Kv1
 import Srctools.Gen.Dmx
+import Srctools.Model.C14Kv2
+import Srctools.Props.C02
 /-!
 # C14 — DMX export/parse preserves the element graph (binary and KeyValues2), KV1 bridge
 
@@ -127,6 +129,26 @@ top, for any case-folding function. -/
 theorem C14_kv1 (fold : Str → Str) (t : KV) (h : t.ok = true) : toKv1 (fromKv1 fold t) = t :=
   toKv1_fromKv1 fold t h
 
+/-! ## (iv) KeyValues2 quoting -/
+
+/-- **KV2 quoting.** Every string `export_kv2` writes through `quote` (element types and names,
+attribute names, values) is read back by the tokenizer `parse_kv2` uses (escapes enabled) as exactly
+one STRING token with the original text, whatever follows it and whatever the tokenizer state; the
+line counter does not move (the text is on one line). -/
+theorem C14_kv2_quote (E : Tok.Tables) (h : Tok.escOK E = true) (o : Tok.Opts)
+    (ho : o.allowEscapes = true) (fold : Char → List Char) (s rest : List Char) (st : Tok.St)
+    (fuel : Nat) :
+    Tok.nextToken E o fold (fuel + 1) st (Kv2.quote E s ++ rest)
+      = .tok .string s { line := st.line, lastCr := false } rest := by
+  have := Tok.C02_inverse E h o ho fold false s rest st fuel
+  rw [Tok.C02_single_line_count E h s] at this
+  simpa [Kv2.quote] using this
+
+theorem C14_kv2_quote_current (s rest : List Char) (st : Tok.St) (fuel : Nat) :
+    Tok.nextToken Gen.Tok.tables {} (fun c => [c]) (fuel + 1) st (Kv2.quote Gen.Tok.tables s ++ rest)
+      = .tok .string s { line := st.line, lastCr := false } rest :=
+  C14_kv2_quote _ Tok.C02_gen_ok {} rfl _ s rest st fuel
+
 /-! ## non-vacuity -/
 
 /-- a graph with a self reference, a mutual cycle, NULL, a stub, a scalar matrix, an empty array,
@@ -173,5 +195,37 @@ def C14_kvSample : KV :=
 
 example : C14_kvSample.ok = true := by decide +kernel
 example : toKv1 (fromKv1 (fun s => s.map Char.toLower) C14_kvSample) = C14_kvSample := by rfl
+
+/-! KV2: the text emitted for a graph with an inlined child, a back reference to the root, NULL,
+escaped characters and arrays is parsed back (tokenizer + reader + UUID fix-ups) to the same
+nodes; with `cull_uuid` the child loses its id. -/
+def C14_u (last : Char) : Str :=
+  ['0','0','0','0','0','0','0','0','-','0','0','0','0','-','0','0','0','0','-','0','0','0','0','-',
+   '0','0','0','0','0','0','0','0','0','0','0', last]
+
+def C14_kv2Sample : Kv2.TGraph := { elems := [
+  { type := ['D'], name := ['r', '"'], uuid := C14_u '1', attrs := [
+     { name := ['c'], type := .element, isArray := true, vals := [.ref (.idx 1), .ref .null, .ref (.idx 0)] },
+     { name := ['s', '"'], type := .string, isArray := false, vals := [.text ['h', '\n', '\\']] },
+     { name := ['i'], type := .int, isArray := true, vals := [.text ['1'], .text ['2']] }] },
+  { type := ['E'], name := [], uuid := C14_u '2', attrs := [
+     { name := ['p'], type := .element, isArray := false, vals := [.ref (.idx 0)] }] }] }
+
+def C14_kv2Expect (cull : Bool) : List Kv2.FNode := [
+  { type := ['D'], name := ['r', '"'], uuid := some (C14_u '1'), attrs := [
+     { name := ['c'], type := .element, isArray := true, vals := [.node 1, .null, .node 0] },
+     { name := ['s', '"'], type := .string, isArray := false, vals := [.text ['h', '\n', '\\']] },
+     { name := ['i'], type := .int, isArray := true, vals := [.text ['1'], .text ['2']] }] },
+  { type := ['E'], name := [], uuid := if cull then none else some (C14_u '2'), attrs := [
+     { name := ['p'], type := .element, isArray := false, vals := [.node 0] }] }]
+
+def C14_kv2Check (flat cull : Bool) : Bool :=
+  match Kv2.parse Gen.Tok.tables Gen.Dmx.tables (fun c => [c])
+      (Kv2.emit Gen.Tok.tables Gen.Dmx.tables flat cull C14_kv2Sample) with
+  | .ok ns => decide (ns = C14_kv2Expect cull)
+  | .error _ => false
+
+example : C14_kv2Check false false = true := by decide +kernel
+example : C14_kv2Check false true = true := by decide +kernel
 
 end C14
